@@ -121,6 +121,7 @@ func runRegistry(withStops bool) func(rc *core.RunCtx) {
 		}
 		scripts := make([][]regOp, ntasks)
 		per := map[string]int{}
+		crashN := map[string]int{}
 		for t := range scripts {
 			n := g.Range(1, maxOps)
 			for i := 0; i < n; i++ {
@@ -134,6 +135,11 @@ func runRegistry(withStops bool) func(rc *core.RunCtx) {
 					src := fmt.Sprintf("t%d", t)
 					o.msg = env.NewMsg(src, per[src+id])
 					per[src+id]++
+					if crashN[id] < 2 && g.Bool(0.15) {
+						// the actor crashes on this one and is restarted (budget 3)
+						o.msg.Op = cPanic
+						crashN[id]++
+					}
 				}
 				if k == rStopWait {
 					o.poison = g.Bool(0.5)
@@ -179,7 +185,7 @@ func runRegistry(withStops bool) func(rc *core.RunCtx) {
 					simrt.Yield(simrt.OpUser)
 					switch o.op {
 					case rSpawn:
-						sp := &Spec{Kind: kindOf(o.id), ID: idOf(o.id), MaxRestarts: 1, InboxSize: 4, SlowStopped: slowStopped, PanicInit: map[int]bool{}, PanicStarted: map[int]bool{}, PanicStopped: map[int]bool{}}
+						sp := &Spec{Kind: kindOf(o.id), ID: idOf(o.id), MaxRestarts: 3, InboxSize: 4, SlowStopped: slowStopped, PanicInit: map[int]bool{}, PanicStarted: map[int]bool{}, PanicStopped: map[int]bool{}}
 						before := len(env.byID[o.id])
 						prodBefore := 0
 						for _, in := range env.byID[o.id] {
@@ -266,8 +272,14 @@ func runRegistry(withStops bool) func(rc *core.RunCtx) {
 			for _, in := range env.byID[id] {
 				prod += in.Produced
 			}
-			if prod != winning[id] {
-				rc.Violate2(own, "producer-calls", "%s: Producer ran %d times, %d spawns won", id, prod, winning[id])
+			restarts := 0 // the Producer also runs once per restart after a crash on a message
+			for _, d := range env.userDeliveries(id) {
+				if d.Panicked {
+					restarts++
+				}
+			}
+			if prod != winning[id]+restarts {
+				rc.Violate2(own, "producer-calls", "%s: Producer ran %d times, %d spawns won, %d restarts", id, prod, winning[id], restarts)
 			}
 			dup := 0
 			for _, e := range mon.Events {
@@ -345,8 +357,9 @@ func runRegistry(withStops bool) func(rc *core.RunCtx) {
 			}
 			last := insts[len(insts)-1]
 			aliveNow := len(last.Incs) > 0
-			for _, inc := range last.Incs {
-				for _, d := range inc {
+			if aliveNow {
+				// (earlier incarnations got Stopped when they crashed; the last one counts)
+				for _, d := range last.Incs[len(last.Incs)-1] {
 					if d.Kind == dStopped {
 						aliveNow = false
 					}
@@ -718,6 +731,8 @@ func init() {
 	base := "one real Engine; 2-4 tasks doing Spawn / stop-and-wait / GetPID / Send over a pool of 1-3 ids; each operation stamped call/return with a global event counter; "
 	core.Register(&core.Profile{Property: "C10", Name: "registry", Weight: 3, Cfg: cfgEngine, Run: runRegistry(true),
 		Doc: base + "oracle: porcupine linearizability against 'set of registered ids' (Spawn wins iff absent, StopAndWait removes, GetPID reads), Producer runs once per winning spawn and never for a loser, one ActorDuplicateIdEvent per losing spawn, successive actors under one id never overlap"})
+	core.Register(&core.Profile{Property: "C02", Name: "engine-respawn", Weight: 1, Cfg: cfgEngine, Run: runRegistry(true),
+		Doc: base + "actors that crash on a message (restart), are stopped while the restart buffer is replayed, and whose id is spawned again meanwhile; oracle for C02: Receive intervals of one actor never overlap, accesses to its state are ordered"})
 	core.Register(&core.Profile{Property: "C01", Name: "engine-respawn", Weight: 1, Cfg: cfgEngine, Run: runRegistry(true),
 		Doc: base + "ids spawned again after (or while) an earlier actor under the id is stopping (slow Stopped handlers); oracle for C01: at the final quiescent point every actor that was started and never stopped is registered and receives the messages sent to it"})
 	core.Register(&core.Profile{Property: "C12", Name: "duplicate-id-events", Weight: 2, Cfg: cfgEngine, Run: runRegistry(false),
